@@ -1,2 +1,3 @@
+pub mod c03;
 pub mod c16;
 pub mod c17;
